@@ -286,10 +286,21 @@ func init() {
 				fails = append(fails, fail("C19", "twin:ReadDestination/NewDestinationFromBytes", "serialisations differ on %s…", trunc(a[0], 40)))
 			}
 		}
+		// C09 on every route that hands out a Destination: the pointer-returning reader and the constructor
+		if err2 == nil && d2 != nil && d2.KeysAndCert != nil && d2.KeyCertificate != nil {
+			if s2, c2 := d2.KeyCertificate.SigningPublicKeyType(), d2.KeyCertificate.PublicKeyType(); !destAllowedSpec(s2, c2) {
+				fails = append(fails, fail("C09", "policy:NewDestinationFromBytes", "NewDestinationFromBytes returned a Destination with prohibited types (signing %d, crypto %d)", s2, c2))
+			}
+		}
 		// twin / C09 non-rejection: the wrapper accepts exactly what ReadKeysAndCert accepts with permitted types
 		k, _, kerr := keys_and_cert.ReadKeysAndCert(w)
 		if kerr == nil {
 			s, c := k.KeyCertificate.SigningPublicKeyType(), k.KeyCertificate.PublicKeyType()
+			if nd, nerr := destination.NewDestination(k); nerr == nil && nd != nil && !destAllowedSpec(s, c) {
+				fails = append(fails, fail("C09", "policy:NewDestination", "NewDestination accepted a KeysAndCert with prohibited types (signing %d, crypto %d)", s, c))
+			} else if nerr != nil && destAllowedSpec(s, c) {
+				fails = append(fails, fail("C09", "dest-policy-mismatch:NewDestination", "NewDestination rejects permitted types (%d,%d): %v", s, c, nerr))
+			}
 			if destAllowedSpec(s, c) != (err == nil) {
 				fails = append(fails, fail("C09", "dest-policy-mismatch", "ReadDestination accept=%v for types (%d,%d), specification says allowed=%v", err == nil, s, c, destAllowedSpec(s, c)))
 			}
@@ -318,9 +329,19 @@ func init() {
 				fails = append(fails, fail("C19", "twin:ReadRouterIdentity/NewRouterIdentityFromBytes", "values differ on %s…", trunc(a[0], 40)))
 			}
 		}
+		if err2 == nil && r2 != nil && r2.KeysAndCert != nil && r2.KeyCertificate != nil {
+			if s2, c2 := r2.KeyCertificate.SigningPublicKeyType(), r2.KeyCertificate.PublicKeyType(); !ridAllowedSpec(s2, c2) {
+				fails = append(fails, fail("C09", "policy:NewRouterIdentityFromBytes", "NewRouterIdentityFromBytes returned a RouterIdentity with prohibited types (signing %d, crypto %d)", s2, c2))
+			}
+		}
 		k, _, kerr := keys_and_cert.ReadKeysAndCert(w)
 		if kerr == nil {
 			s, c := k.KeyCertificate.SigningPublicKeyType(), k.KeyCertificate.PublicKeyType()
+			if nr, nerr := router_identity.NewRouterIdentityFromKeysAndCert(k); nerr == nil && nr != nil && !ridAllowedSpec(s, c) {
+				fails = append(fails, fail("C09", "policy:NewRouterIdentityFromKeysAndCert", "NewRouterIdentityFromKeysAndCert accepted prohibited types (signing %d, crypto %d)", s, c))
+			} else if nerr != nil && ridAllowedSpec(s, c) {
+				fails = append(fails, fail("C09", "rid-policy-mismatch:NewRouterIdentityFromKeysAndCert", "NewRouterIdentityFromKeysAndCert rejects permitted types (%d,%d): %v", s, c, nerr))
+			}
 			if ridAllowedSpec(s, c) != (err == nil) {
 				fails = append(fails, fail("C09", "rid-policy-mismatch", "ReadRouterIdentity accept=%v for types (%d,%d), specification says allowed=%v", err == nil, s, c, ridAllowedSpec(s, c)))
 			}
